@@ -219,6 +219,12 @@ def work_no_silent_change(bins, cases):
         if big <= U64:
             pass
         trials += [(p, "pep440", "semver"), (p, "pep440", "pep440")]
+        pv = P.parse(p)
+        if pv is not None:
+            import random as _r
+            alt = P.spell(pv, _r.Random(p), max_rel=3)       # e.g. the implicit post form X.Y-N, alpha/c/rev spellings, separators
+            if P.parse(alt) is not None and P.key_pep440(P.parse(alt)) == P.key_pep440(pv):
+                trials += [(alt, "pep440", "pep440"), (alt, "pep440", "semver")]
         for inp, fi, fo in trials:
             n += 1
             k, out = _res(call(pr, inp, fi, fo))
